@@ -201,7 +201,11 @@ def search(req):
     rng = random.Random(req.get("seed", 0))
     tried = 0
     prev = None
+    import time as _t
+    t_end = _t.time() + float(req.get("seconds", 15))
     for i in range(req.get("budget", 3000)):
+        if _t.time() > t_end:
+            return {"ok": True, "found": False, "tried": tried, "reason": "time budget"}
         try:
             args = {k: gen_value(t, rng) for k, t in req["types"].items()}
         except ValueError as e:
@@ -222,6 +226,8 @@ def search(req):
             args[a] = bytes(rng.choice([0, 1])) + args[a] if False else (b"\x00" + args[a])[: rng.choice([1, 2, 3, 33])]
         prev = dict(args)
         r = replay(dict(func=req["func"], args={k: enc(v) for k, v in args.items()}, clause=req["clause"], requires=req.get("requires", [])))
+        if "clause_error" in r:
+            return {"ok": True, "found": False, "tried": tried, "reason": "clause not evaluable natively: " + r["clause_error"]}
         if not r.get("precondition_holds", False):
             continue
         tried += 1
